@@ -532,7 +532,7 @@ open Res
 /-! ### IPv6 -/
 
 theorem v6Number_inv {i i' : Bytes} {g : Nat} (h : v6Number i = some (g, i')) :
-    ∃ ds, HexGroup ds ∧ i = ds ++ i' ∧ g = hexVal ds := by
+    ∃ ds, HexGroup ds ∧ i = ds ++ i' ∧ g = hexGroupVal ds := by
   unfold v6Number at h
   simp only at h
   split at h
@@ -547,7 +547,7 @@ theorem v6Number_inv {i i' : Bytes} {g : Nat} (h : v6Number i = some (g, i')) :
 
 theorem v6Groups_inv : ∀ (limit idx : Nat) (i : Bytes) (acc groups : List Nat) (rest : Bytes),
     v6Groups limit idx i acc = (groups, rest) →
-    ∃ gs : List Bytes, (∀ g ∈ gs, HexGroup g) ∧ gs.length ≤ limit ∧ groups = acc.reverse ++ gs.map hexVal ∧
+    ∃ gs : List Bytes, (∀ g ∈ gs, HexGroup g) ∧ gs.length ≤ limit ∧ groups = acc.reverse ++ gs.map hexGroupVal ∧
       i = (if idx = 0 then groupsText gs else colonGroups gs) ++ rest := by
   intro limit
   induction limit with
